@@ -26,7 +26,8 @@ int read_int(const char* p, int field_length) {
 double read_double(const char* p, int field_length) {
   double d = 0.;
   // we don't check for errors here
-  fast_from_chars(p, p + field_length, d);
+  // (the field may be cut short by the end of a NUL-terminated record)
+  fast_from_chars(p, p + strnlen(p, field_length), d);
   return d;
 }
 
@@ -734,7 +735,7 @@ void process_conn(Structure& st, const std::vector<std::string>& conn_records) {
       }
       st.connections.emplace_back(c);
     } else if (record[0] == 'C' || record[0] == 'c') { // CISPEP
-      if (record.length() < 22)
+      if (record.length() < 36)
         continue;
       const char* r = record.c_str();
       CisPep cispep;
@@ -744,8 +745,12 @@ void process_conn(Structure& st, const std::vector<std::string>& conn_records) {
       cispep.partner_n.res_id = read_res_id(r + 31, r + 25);
       // In files with a single model in the PDB CISPEP modNum is 0,
       // but _struct_mon_prot_cis.pdbx_PDB_model_num is 1.
-      cispep.model_num = st.models.size() == 1 ? st.models[0].num : read_int(r + 43, 3);
-      cispep.reported_angle = read_double(r + 53, 6);
+      if (st.models.size() == 1)
+        cispep.model_num = st.models[0].num;
+      else if (record.length() > 43)
+        cispep.model_num = read_int(r + 43, 3);
+      if (record.length() > 53)
+        cispep.reported_angle = read_double(r + 53, 6);
       st.cispeps.push_back(cispep);
     }
   }
